@@ -5,7 +5,7 @@
    interleaving of client calls, per-channel deliveries (OSrv c / OCli c), disconnects, clock
    ticks and housekeeping runs, because `ops` is universally quantified. *)
 From OlaBase Require Import Bytes.
-From C04 Require Import Gen Model Proofs Once Fidelity Safe Merge Wf Fidelity2 Fifo Exactly.
+From C04 Require Import Gen Model Proofs Once Fidelity Safe Merge Wf Fidelity2 Fifo Exactly Fifo2 Gone Ts Coroll.
 Local Open Scope N_scope.
 
 (* constants regenerated from the headers equal the numbers the property text uses *)
@@ -201,6 +201,12 @@ Theorem c04_fidelity : forall n ops c k' x d p,
   cd_find (sv_cdata (st_sv st')) (c, u_id x) = Some src /\
   exists x2 ch,
     find_uni (sv_unis (st_sv st')) (u_id x) = Some x2 /\
+    merge_all (st_now st0) (sv_cdata (st_sv st'))
+      {| u_id := u_id x; u_htp := u_htp x; u_name := u_name x; u_buf := u_buf x; u_aprio := u_aprio x;
+         u_srcs := u_srcs x2; u_sinks := u_sinks x |} c = (x2, ch) /\
+    u_srcs x2 = (if src_memb c (u_srcs x)
+                 then map (fun e => if fst e =? c then (c, false) else e) (u_srcs x)
+                 else u_srcs x ++ [(c, false)]) /\
     src_memb c (u_srcs x2) = true /\ u_sinks x2 = u_sinks x /\
     (let L := lives (st_now st0) (sv_cdata (st_sv st')) (u_id x) (u_srcs x2) in
      let G := group L in
@@ -286,6 +292,106 @@ Example c04_once_nonvacuous :
   k_closed (st_cl st 0) = false /\ k_c2s (st_cl st 0) = [] /\ k_s2c (st_cl st 0) = [] /\
   st_issued st = [(0, 0); (0, 1)] /\ st_done st = [0; 1].
 Proof. vm_compute. repeat split. Qed.
+
+(* FIFO, exact form, every schedule.  For every sender c: what c sent = consumed ++ tail where the
+   consumed requests are, in order, exactly an interleaving of the frames the server applied for c
+   and the frames it refused because the universe did not exist (ghost log st_rejected), and tail is
+   exactly what is still queued in c's channel while its session exists.  Hence, once c's channel is
+   drained with its session kept, sent = interleaving of applied and refused, and if nothing was
+   refused the applied log EQUALS the sent log. *)
+Theorem c04_fifo_exact : forall n ops c,
+  let st := run (init_state n) ops in
+  (exists consumed tail,
+     sentc st c = consumed ++ tail /\ interleave (appc st c) (rejc st c) consumed /\
+     (sv_alive (st_sv st) c = true -> tail = pend_sends (k_c2s (st_cl st c)))) /\
+  (sv_alive (st_sv st) c = true -> pend_sends (k_c2s (st_cl st c)) = [] ->
+     interleave (appc st c) (rejc st c) (sentc st c) /\
+     (rejc st c = [] -> appc st c = sentc st c)).
+Proof.
+  intros n ops c. cbn zeta. split; [apply (consumed_is_interleaving n ops c)|apply (drained_applied_eq_sent n ops c)].
+Qed.
+Print Assumptions c04_fifo_exact.
+
+(* Every stored source carries a non-zero wake-up time of the past, in every reachable state. *)
+Theorem c04_timestamps : forall n ops,
+  let st := run (init_state n) ops in
+  st_wake st <> 0 /\ st_wake st <= st_now st /\
+  forall e, In e (sv_cdata (st_sv st)) -> s_ts (snd e) <> 0 /\ s_ts (snd e) <= st_wake st.
+Proof. intros n ops. exact (ts_run _ ops (ts_init n)). Qed.
+Print Assumptions c04_timestamps.
+
+(* LTP, last writer wins, over reachable states (st0 reachable, service method running for c):
+   if the sender's new source is live at the universe's top priority, then after the send the
+   universe holds exactly the sender's frame (cut to 512), whatever the other sources hold.  (No
+   timestamp side condition: by c04_timestamps nobody can be newer.) *)
+Theorem c04_ltp_last_writer : forall n ops c k' x d p x2,
+  let st0 := run (init_state n) ops in
+  let st' := apply_dmx (inner st0 c k') c x d p in
+  let src := {| s_data := dmx_set d; s_ts := st_wake st0; s_prio := clamp_prio p |} in
+  find_uni (sv_unis (st_sv st0)) (u_id x) = Some x -> u_htp x = false ->
+  find_uni (sv_unis (st_sv st')) (u_id x) = Some x2 ->
+  In (c, src) (group (lives (st_now st0) (sv_cdata (st_sv st')) (u_id x) (u_srcs x2))) ->
+  u_buf x2 = dmx_set d.
+Proof. exact ltp_last_writer. Qed.
+Print Assumptions c04_ltp_last_writer.
+
+(* One sender, over reachable states, no side hypotheses on sink sets (supersedes
+   c04_fidelity_partial): when c is the universe's only source (or the universe has none yet), the
+   frame is non-empty and the loop iteration is shorter than the 2.5 s source timeout, the universe
+   holds exactly that frame (cut to 512) with the clamped priority, every open registered sink gets
+   exactly one push with that universe number, priority and frame, and a fetch returns it. *)
+Theorem c04_fidelity_single : forall n ops c k' x d p,
+  let st0 := run (init_state n) ops in
+  let st' := apply_dmx (inner st0 c k') c x d p in
+  find_uni (sv_unis (st_sv st0)) (u_id x) = Some x ->
+  (u_srcs x = [] \/ exists b, u_srcs x = [(c, b)]) ->
+  dmx_set d <> [] -> st_now st0 < st_wake st0 + 2500000 ->
+  exists x2, find_uni (sv_unis (st_sv st')) (u_id x) = Some x2 /\
+             u_buf x2 = dmx_set d /\ u_aprio x2 = clamp_prio p /\
+             (forall s, In s (u_sinks x) -> k_closed (st_cl (inner st0 c k') s) = false ->
+                k_s2c (st_cl st' s) = k_s2c (st_cl (inner st0 c k') s) ++ [SPush (u_id x) (clamp_prio p) (dmx_set d)]) /\
+             (forall rid y, snd (handle_req st' y (RGet rid (u_id x))) = Some (SDmx rid (u_id x) (clamp_prio p) (dmx_set d))).
+Proof. exact single_sender. Qed.
+Print Assumptions c04_fidelity_single.
+
+Example c04_fidelity_single_nonvacuous :
+  let st0 := run (init_state 2) [OReg 0 1 true; OSrv 0; OSend false false 1 1 (Some 100) [7; 8]] in
+  exists x, find_uni (sv_unis (st_sv st0)) 1 = Some x /\ u_id x = 1 /\ u_srcs x = [] /\ u_sinks x = [0] /\
+            st_now st0 < st_wake st0 + 2500000.
+Proof. cbn zeta. eexists. vm_compute. repeat split. Qed.
+
+(* "A client that disconnects at any point stops contributing and never disturbs the others", over
+   all histories.  c is gone in a state when it has stopped and the daemon has processed the
+   disconnect (c04_disconnect: it is then in no source/sink set and has no stored frame).  For every
+   history ops1 after which c is gone and EVERY continuation ops2:
+   (1) c is still gone (it never contributes again: it has no session, so c04_disconnect's
+       membership facts persist by c04_reachable_wf);
+   (2) whatever c's process does next (any API call, reading its socket, stopping again) leaves
+       the daemon, the clock, the wake-up time, every client's channels and tables, the pending
+       closes and the DMX logs exactly as they were; it only consumes request numbers, and the only
+       events produced are "Not connected" completions addressed to c;
+   (3) a schedule step naming c's descriptor does nothing (tag 0, no events).
+   NOT proved: the literal projection form (deleting c's later ops from the history yields the same
+   observations for the others) — it needs a renaming of the globally numbered request ids. *)
+Theorem c04_gone_inert : forall n ops1 ops2 c,
+  gone (run (init_state n) ops1) c ->
+  let st := run (run (init_state n) ops1) ops2 in
+  gone st c /\
+  (forall o, op_client o = Some c ->
+     same_world (fst (fst (step st o))) st /\
+     (forall e, In e (snd (step st o)) -> ev_client e = c /\ ev_is_notconn e = true)) /\
+  srv_step st c = (st, 0).
+Proof.
+  intros n ops1 ops2 c G. cbn zeta.
+  pose proof (gone_run _ ops2 c G) as G2.
+  split; [exact G2|]. split; [intros o Ho; apply (gone_client_op _ c o G2 Ho)|].
+  apply gone_srv_step. apply G2.
+Qed.
+Print Assumptions c04_gone_inert.
+
+Example c04_gone_nonvacuous :
+  gone (run (init_state 2) [OReg 0 1 true; OSrv 0; ODisc 0; OSrv 0]) 0.
+Proof. split; vm_compute; reflexivity. Qed.
 
 (* hypotheses of c04_fidelity_partial are satisfiable, with a registered sink *)
 Example c04_fidelity_nonvacuous :
